@@ -105,8 +105,10 @@
 ; go/types facts used by the optimiser's side conditions (abstract)
 (declare-fun objectOf (Ref) Iface)
 (declare-fun TypesIdentical (Iface Iface) Bool)
+(declare-fun TypeResolved (Iface) Bool) ; go/types: the type mentions no invalid (unresolved) type
 ; the callee expression is a method value x.m whose receiver x is evaluated when the expression is (ghost, C07/C13 side condition)
 (declare-fun BindsReceiverEarly (Iface) Bool)
+(declare-fun Addressable (Iface) Bool) ; go/types: the expression denotes an addressable value (mode variable)
 (declare-fun cursorReplace (Ref Iface World) World)
 (declare-fun cursorInsert (Ref Iface World) World)
 ; projections of the two (free) edit constructors, stated by the assumed contracts of Cursor.Replace / Cursor.InsertBefore
